@@ -84,6 +84,8 @@ pub struct Ctx {
     pub built: Option<Box<multiboot2::DynSizedStructure<multiboot2::BootInformationHeader>>>,
     #[cfg(feature = "builder")]
     pub hbuilt: Option<Box<multiboot2::DynSizedStructure<multiboot2_header::Multiboot2BasicHeader>>>,
+    /// a copy of a built structure at a chosen address residue (use_built with "res")
+    pub copy: Option<Vec<u64>>,
 }
 
 impl Ctx {
@@ -103,6 +105,7 @@ impl Ctx {
             built: None,
             #[cfg(feature = "builder")]
             hbuilt: None,
+            copy: None,
         }
     }
 
